@@ -123,6 +123,9 @@ class Stats(object):
                 k = "raised:%s:%s" % (e["kind"], e.get("name") if e["kind"] == "hook" else e["raised"])
                 self.fired[k] = self.fired.get(k, 0) + 1
         self.sim_seconds += hist.get("sim_seconds", 0.0)
+        if hist.get("async_virtual_seconds"):
+            self.probes["async-virtual-seconds"] = self.probes.get("async-virtual-seconds", 0) + int(hist["async_virtual_seconds"])
+            self.probes["async-clock-jumps"] = self.probes.get("async-clock-jumps", 0) + hist.get("async_clock_jumps", 0)
         self.clock_jumps += hist.get("clock_jumps", 0)
         if hist.get("config_error"):
             self.invalid_worlds += 1
